@@ -37,11 +37,11 @@ def main():
     seeds = sys.argv[1:] or sorted(s for s in os.listdir(V + "/seeded")
                                    if s[-1] in "ijk" and os.path.isdir(V + "/seeded/" + s))
     res = {}
-    with ThreadPoolExecutor(max_workers=5) as ex:
+    with ThreadPoolExecutor(max_workers=4) as ex:
         for seed, props, det, err in ex.map(run, seeds):
             res[seed] = {"checks_run": props, "detected_by": det, "errors": err}
             print(seed, "own" if seed[:3] in det else "NOT-OWN", det, err or "", flush=True)
-    json.dump(res, open(V + "/seeded/MATRIX_round4_final.json", "w"), indent=1, sort_keys=True)
+    json.dump(res, open(V + "/seeded/" + (os.environ.get("QM_OUT") or "MATRIX_round4_final.json"), "w"), indent=1, sort_keys=True)
 
 
 if __name__ == "__main__":
